@@ -267,14 +267,14 @@ Proof.
   assert (Hjlt : (j < length fs)%nat).
   { specialize (Hcl i j Hin Hj). apply in_seq in Hcl. lia. }
   cbn [validate_steps]. rewrite Eo, El1. unfold permute.
-  rewrite !map_app. cbn [map]. rewrite !concat_app. cbn [concat]. rewrite ?concat_app.
-  assert (Hnth : forall k, (k < length fs)%nat ->
-            nth k (map validate_steps fs) [] = validate_steps (nth k fs (Leaf 0))).
-  { intros k Hk. rewrite (nth_indep _ [] (validate_steps (Leaf 0))) by (now rewrite map_length).
+  set (F := fun k : nat => nth k (map validate_steps fs) []).
+  assert (Hnth : forall k, (k < length fs)%nat -> F k = validate_steps (nth k fs (Leaf 0))).
+  { intros k Hk. unfold F. rewrite (nth_indep _ [] (validate_steps (Leaf 0))) by (now rewrite map_length).
     apply map_nth. }
-  rewrite (Hnth j Hjlt), (Hnth i Hi).
-  eexists (opt_step hb (EV_BEFORE + id) ++ _), _, (_ ++ opt_step he (EV_EXTRA + id)).
-  rewrite <- !app_assoc. reflexivity.
+  exists (opt_step hb (EV_BEFORE + id) ++ concat (map F l1a)), (concat (map F l1b)),
+         (concat (map F l2) ++ opt_step he (EV_EXTRA + id)).
+  rewrite !map_app. cbn [map]. rewrite !concat_app. cbn [concat]. rewrite concat_app. cbn [concat].
+  rewrite (Hnth j Hjlt), (Hnth i Hi). rewrite <- !app_assoc. reflexivity.
 Qed.
 
 (* declaration order when the struct declares no `requires` *)
